@@ -400,7 +400,7 @@ def check_property(prop, tier='quick', seed=0, kani_runner=None):
 
     wall = time.time() - t0
     checker_cmd = 'verus build/cfb.rs --verify-module <m> --error-format=json --output-json --time --multiple-errors 20 --rlimit 30  (m in %s)' % ','.join(unit_names) \
-        + ('; cargo kani -Z function-contracts -Z stubbing --harness <h>' if kani_info and kani_info['harnesses'] else '')
+        + ('; cargo kani --harness <h> in a scratch copy of /repo with kani/harness.rs appended to src/lib.rs' if kani_info and kani_info['harnesses'] else '')
     ev = dict(
         property_id=prop, tier=tier, seed=seed, level='proof',
         coverage=dict(
